@@ -18,6 +18,7 @@ limitations under the License.
 package gogen
 
 import (
+	"fmt"
 	"go/ast"
 	"go/constant"
 	"go/token"
@@ -667,6 +668,25 @@ func (p makeInstr) Call(pkg *Package, args []*Element, lhs int, flags InstrFlags
 	typ := ttyp.Type()
 	if !makable.Match(pkg, typ) {
 		log.Panicln("TODO: can't make this type -", typ)
+	}
+	// a slice needs a length; every size argument is an integer value
+	if _, isSlice := getUnderlying(pkg, typ).(*types.Slice); isSlice && len(args) < 2 {
+		pos, end := getSrcPos(src), getSrcEnd(src)
+		return nil, pkg.cb.newCodeError(pos, end, fmt.Sprintf("invalid operation: make(%v) expects 2 or 3 arguments; found 1", typ))
+	}
+	for _, arg := range args[1:] {
+		integral := false
+		if t, ok := arg.Type.Underlying().(*types.Basic); ok {
+			if t.Info()&types.IsInteger != 0 {
+				integral = true
+			} else if t.Info()&types.IsUntyped != 0 && t.Info()&types.IsNumeric != 0 && arg.CVal != nil {
+				integral = constant.ToInt(arg.CVal).Kind() == constant.Int
+			}
+		}
+		if !integral {
+			code, pos, end := pkg.cb.loadExpr(arg.Src)
+			return nil, pkg.cb.newCodeError(pos, end, fmt.Sprintf("cannot convert %s (type %v) to type int in argument to make", code, arg.Type))
+		}
 	}
 	ret = &Element{
 		Val:  newMakeExpr(args),
